@@ -36,6 +36,9 @@ type c15Case struct {
 	MapSeed     uint64     `json:"map_seed"`
 	MapIdentity bool       `json:"map_identity"`
 	Sched       *SchedSpec `json:"sched,omitempty"`
+	// Arena: a caller-owned, unsorted slice with repeats; "newset" operations with B%3==0
+	// spread a prefix of it (NewIntSet(ids[:k]...)), overlapping earlier spreads
+	Arena []int `json:"arena,omitempty"`
 }
 
 type c15Prop struct{}
@@ -101,6 +104,9 @@ func c15GenOp(r *Rand, hi int) c15Op {
 		}
 	case "newmap":
 		n := r.Range(0, 4)
+		if hi > 6 {
+			n = r.Range(0, 14) // larger maps
+		}
 		if r.Chance(1, 5) {
 			o.Vals = nil
 			o.V = -99 // NewIntMap(nil)
@@ -123,6 +129,9 @@ func (*c15Prop) Gen(r *Rand, pl *Plan) Case {
 	hi := 6
 	if r.Chance(1, 4) {
 		hi = 24
+	}
+	for k := r.Range(0, 9); k > 0; k-- {
+		c.Arena = append(c.Arena, r.Range(-2, hi))
 	}
 	if pl.Variant == 0 {
 		n := r.Range(2, size)
@@ -169,6 +178,10 @@ type c15Pool struct {
 	maps  []data.IntMap
 	mmaps []map[int]int
 	log   []string // rendered observations (pass 2 comparison)
+	// arena: a caller-owned slice; "newset" operations marked shared spread overlapping
+	// parts of it into NewIntSet (NewIntSet(ids[:k]...)), the way a caller holding ids would
+	arena  []int
+	arena0 []int // what the caller wrote into it
 }
 
 func newC15Pool() *c15Pool {
@@ -180,7 +193,7 @@ func newC15Pool() *c15Pool {
 
 func (p *c15Pool) fork() *c15Pool {
 	return &c15Pool{sets: append([]data.IntSet(nil), p.sets...), msets: append([]map[int]struct{}(nil), p.msets...),
-		maps: append([]data.IntMap(nil), p.maps...), mmaps: append([]map[int]int(nil), p.mmaps...)}
+		maps: append([]data.IntMap(nil), p.maps...), mmaps: append([]map[int]int(nil), p.mmaps...), arena: append([]int(nil), p.arena0...), arena0: p.arena0}
 }
 
 func readSet(s data.IntSet) []int {
@@ -278,9 +291,19 @@ func (p *c15Pool) apply(o c15Op, probes map[string]int64) (class, detail string,
 	ma := o.A % len(p.maps)
 	switch o.Op {
 	case "newset":
-		s := data.NewIntSet(o.Vals...)
+		// never hand the case's own slice to the library: spread a caller-owned copy
+		vals := append([]int(nil), o.Vals...)
+		model := vals
+		if o.B%3 == 0 && len(p.arena) > 0 {
+			// a prefix of the caller's long-lived slice, overlapping earlier spreads; the
+			// model is what the caller put there (a correct library never writes to it)
+			k := 1 + o.A%len(p.arena)
+			vals, model = p.arena[:k], p.arena0[:k]
+			probes["newset_from_a_shared_caller_slice"]++
+		}
+		s := data.NewIntSet(vals...)
 		m := map[int]struct{}{}
-		for _, v := range o.Vals {
+		for _, v := range model {
 			m[v] = struct{}{}
 		}
 		p.sets, p.msets = append(p.sets, s), append(p.msets, m)
@@ -288,7 +311,7 @@ func (p *c15Pool) apply(o c15Op, probes map[string]int64) (class, detail string,
 			probes["set_created_with_spare_capacity"]++
 		}
 		if d := checkSet(s, m); d != "" {
-			return "model:newset", fmt.Sprintf("NewIntSet(%v): %s", o.Vals, d), false
+			return "model:newset", fmt.Sprintf("NewIntSet(%v): %s", vals, d), false
 		}
 	case "insert":
 		if sliceCapSlack(p.sets[sa]) {
@@ -474,6 +497,7 @@ func (*c15Prop) Run(cc Case) Verdict {
 		v.Faults["map_order_stream"] = 1
 	}
 	pool := newC15Pool()
+	pool.arena, pool.arena0 = append([]int(nil), c.Arena...), append([]int(nil), c.Arena...)
 	derived := 0
 	for i, o := range c.Ops {
 		cl, d, der := pool.apply(o, v.Probes)
